@@ -1873,8 +1873,14 @@ func init() {
 // slope, cmap subtables, glyph names) for a font in the class the byte-level model covers so far:
 // TrueType outlines of simple glyphs, no layout tables, at least one timestamp.
 func f1FileArgs(font *sfnt.Font) (string, bool) {
+	if co, isCff := font.Outlines.(*cff.Outlines); isCff {
+		if !f1CffFileClass {
+			return "", false
+		}
+		return f1FileArgsCff(font, co)
+	}
 	o, ok := font.Outlines.(*glyf.Outlines)
-	if !ok || font.Gsub != nil || font.Gpos != nil || font.Gdef != nil ||
+	if !ok ||
 		(font.CreationTime.IsZero() && font.ModificationTime.IsZero()) || o.Maxp == nil || len(o.Glyphs) > 40 {
 		return "", false
 	}
@@ -1939,7 +1945,19 @@ func f1FileArgs(font *sfnt.Font) (string, bool) {
 		}
 		gn = "n" + strings.Join(parts, ",")
 	}
-	return fmt.Sprintf("gly=%s mx=%s tabs=%s rr=%d:%d cmt=%s gn=%s", strings.Join(gl, ","), f1IntsStr(mx), strings.Join(tabs, ","), rise, run, cmt, gn), true
+	// layout tables: the bytes of their own encoders (their codecs are C08's subject)
+	gdefb, gsubb, gposb := "-", "-", "-"
+	if font.Gdef != nil {
+		gdefb = hx(font.Gdef.Encode())
+	}
+	if font.Gsub != nil {
+		gsubb = hx(font.Gsub.Encode())
+	}
+	if font.Gpos != nil {
+		gposb = hx(font.Gpos.Encode())
+	}
+	return fmt.Sprintf("gly=%s mx=%s tabs=%s rr=%d:%d cmt=%s gn=%s gdefb=%s gsubb=%s gposb=%s", strings.Join(gl, ","), f1IntsStr(mx),
+		strings.Join(tabs, ","), rise, run, cmt, gn, gdefb, gsubb, gposb), true
 }
 
 func b01Str(b bool) string {
@@ -1947,6 +1965,68 @@ func b01Str(b bool) string {
 		return "yes"
 	}
 	return "no"
+}
+
+// f1CffFileClass: whether OpenType/CFF fonts take part in the font.file stream (needs the CFF
+// flavour of the byte-level model in the driver)
+var f1CffFileClass = false
+
+// f1LayoutArgs: cmap subtables and the encoded layout tables of a font.file line
+func f1LayoutArgs(font *sfnt.Font) string {
+	cmt := "-"
+	if font.CMapTable != nil {
+		var keys []cmap.Key
+		for k := range font.CMapTable {
+			keys = append(keys, k)
+		}
+		sort.Slice(keys, func(i, j int) bool {
+			a, b := keys[i], keys[j]
+			if a.PlatformID != b.PlatformID {
+				return a.PlatformID < b.PlatformID
+			}
+			if a.EncodingID != b.EncodingID {
+				return a.EncodingID < b.EncodingID
+			}
+			return a.Language < b.Language
+		})
+		var parts []string
+		for _, k := range keys {
+			parts = append(parts, fmt.Sprintf("%d.%d.%d:%s", k.PlatformID, k.EncodingID, k.Language, hx(font.CMapTable[k])))
+		}
+		cmt = strings.Join(parts, ",")
+	}
+	gdefb, gsubb, gposb := "-", "-", "-"
+	if font.Gdef != nil {
+		gdefb = hx(font.Gdef.Encode())
+	}
+	if font.Gsub != nil {
+		gsubb = hx(font.Gsub.Encode())
+	}
+	if font.Gpos != nil {
+		gposb = hx(font.Gpos.Encode())
+	}
+	return fmt.Sprintf("cmt=%s gdefb=%s gsubb=%s gposb=%s", cmt, gdefb, gsubb, gposb)
+}
+
+// f1FileArgsCff: payload fields for an OpenType/CFF font: the CFF table as makeCFF builds it
+// (its codec is C13's subject), the glyph extents (Glyph.Extent(): float floor/ceil), the caret slope.
+func f1FileArgsCff(font *sfnt.Font, o *cff.Outlines) (string, bool) {
+	if (font.CreationTime.IsZero() && font.ModificationTime.IsZero()) || len(o.Glyphs) > 70 {
+		return "", false
+	}
+	buf := &bytes.Buffer{}
+	if err := font.AsCFF().Write(buf); err != nil {
+		return "", false
+	}
+	var ext []string
+	for _, g := range o.Glyphs {
+		e := g.Extent()
+		ext = append(ext, fmt.Sprintf("%d.%d.%d.%d", e.LLx, e.LLy, e.URx, e.URy))
+	}
+	hhea, _ := (&hmtx.Info{CaretAngle: font.ItalicAngle / 180 * math.Pi}).Encode()
+	rise := int16(uint16(hhea[18])<<8 | uint16(hhea[19]))
+	run := int16(uint16(hhea[20])<<8 | uint16(hhea[21]))
+	return fmt.Sprintf("cffb=%s ext=%s rr=%d:%d %s", hx(buf.Bytes()), strings.Join(ext, ","), rise, run, f1LayoutArgs(font)), true
 }
 
 // f1GenFileFont draws a font of that class.
@@ -1958,8 +2038,10 @@ func f1GenFileFont(c *Ctx) f1FontRecipe {
 	if c.Rng.Chance(1, 4) { // no cmap table at all
 		rec.rcm, rec.font.CMapTable = "-", nil
 	}
-	rec.rgsub, rec.rgpos, rec.rgdef = "-", "-", "-"
-	rec.font.Gsub, rec.font.Gpos, rec.font.Gdef = nil, nil, nil
+	if c.Rng.Chance(1, 2) { // no layout tables
+		rec.rgsub, rec.rgpos, rec.rgdef = "-", "-", "-"
+		rec.font.Gsub, rec.font.Gpos, rec.font.Gdef = nil, nil, nil
+	}
 	return rec
 }
 
@@ -1978,7 +2060,7 @@ func f1EmitFont(c *Ctx, rec f1FontRecipe, withDerive bool) {
 	}
 	if extra, ok := f1FileArgs(rec.font); ok {
 		c.Case(Verdict, "font.file", args+" "+extra, true)
-		c.Stat("font.file class", "TrueType, cmap="+b01Str(rec.font.CMapTable != nil)+" names="+b01Str(rec.font.Outlines.(*glyf.Outlines).Names != nil))
+		c.Stat("font.file class", "TrueType, cmap="+b01Str(rec.font.CMapTable != nil)+" names="+b01Str(rec.font.Outlines.(*glyf.Outlines).Names != nil)+" layout="+b01Str(rec.font.Gsub != nil || rec.font.Gpos != nil || rec.font.Gdef != nil))
 	}
 	f1EmitFixed(c, args)
 	reps := 3
